@@ -10,6 +10,7 @@ import (
 	"sort"
 
 	"voicheck/ect"
+	"voicheck/esib"
 	"voicheck/edt"
 	"voicheck/load"
 )
@@ -56,6 +57,7 @@ func init() {
 	}
 	edt.FieldNames = func(k string) []string { return recordedFieldNames[k] }
 	ect.RecordedFieldNames = edt.FieldNames
+	esib.RecordedFieldNames = edt.FieldNames
 	if err := json.Unmarshal(globalsJSON, &load.RecordedGlobals); err != nil {
 		panic("globals.json: " + err.Error())
 	}
